@@ -9,42 +9,16 @@ TRUSTED_BASE = [
 ]
 
 PROPS = {}
+META = {}
+ENGINES = {}
 
-PROPS["C07"] = dict(
-    level="proof",
-    lean_modules=["PopsModel.Props.C07"],
-    theorems=["Pops.C07_valid", "Pops.C07_increasing", "Pops.C07_order", "Pops.C07_tiles",
-              "Pops.C07_partition", "Pops.C07_day_steps"],
-    commands=["date.*", "sched", "lookup", "unit"],
-    runs={
-        "quick": [("h_date", "single-sample", 0, 2500), ("h_date", "sched", 0, 2000), ("h_date", "tables", 0, 94)],
-        "thorough": [("h_date", "single-all", 0, 146097), ("h_date", "single-sample", 0, 20000),
-                     ("h_date", "sched", 0, 200000), ("h_date", "tables", 0, 94)],
-    },
-    exhaustive={"quick": False, "thorough": True},
-    exhaustive_note={
-        "quick": "dense block: every day of Jan/Feb/Mar/Nov/Dec of 2019, 2020, 2100, 2000 x all 32 successor kinds; unit/frequency tables complete",
-        "thorough": "every start date of the 400-year cycle 2000-01-01..2399-12-31 x {1..28 days, week, month, add_day, subtract_day} (4.67 M single steps); unit/frequency tables complete; schedulers sampled",
-    },
-    rule="case = one date with all 32 successor kinds, or one random Scheduler (start biased to Nov/Dec/Feb and leap/century years; day 1..28, week 1..60, month 1..14; 6% malformed) with its steps, 8 lookups and every schedule builder; non-trivial = accepted scheduler with >= 3 steps, or any single-step case; distinct = blake2b of the case's protocol lines",
-    assumptions=["dates are compared through the public Date/Scheduler API only", "n-day steps with n <= 28, month steps start on day 1 (C07's stated domain); other inputs are compared model-vs-code without property predicates"],
-    explanation="Theorems: successors keep dates valid and strictly increase them; the constructor's loop yields a list satisfying TilesCalendar; any list satisfying TilesCalendar partitions its date range and the lookup returns the unique containing step; year rule for day and one-week steps in day-of-year terms for every year. The driver evaluates the same predicates on the implementation's own step lists.",
-)
-
-PROPS["C08"] = dict(
-    level="proof",
-    lean_modules=["PopsModel.Props.C08"],
-    theorems=["Pops.C08_yearly", "Pops.C08_yearly_once", "Pops.C08_end_of_year", "Pops.C08_monthly", "Pops.C08_nsteps",
-              "Pops.C08_spread", "Pops.C08_frequency", "Pops.C08_index_bijection", "Pops.C08_weather"],
-    commands=["yearly", "eoy", "monthly", "nsteps", "final", "spread", "fromstring", "weather", "actionstep", "count"],
-    runs={
-        "quick": [("h_date", "sched", 0, 3000), ("h_date", "tables", 0, 94)],
-        "thorough": [("h_date", "sched", 0, 300000), ("h_date", "tables", 0, 94)],
-    },
-    exhaustive={"quick": False, "thorough": False},
-    exhaustive_note={"quick": "frequency-name x step-unit x n (n <= 31) compatibility table complete (2520 entries); schedulers sampled",
-                     "thorough": "frequency-name x step-unit x n (n <= 31) compatibility table complete (2520 entries); schedulers sampled"},
-    rule="case = one random Scheduler (see C07) with two yearly dates (biased to 1 Jan / 28 Dec), end-of-year, monthly, final, every-n, spread season, three frequency strings, weather table, action-step lookup and count; non-trivial = accepted scheduler with >= 3 steps; distinct = blake2b of the case's protocol lines. Predicates 'fires iff the step contains such a date' are evaluated by enumerating the dates of each implementation step.",
-    assumptions=["steps shorter than a year (the property's domain); for longer steps only model-vs-code agreement is checked"],
-    explanation="Theorems characterise each builder by containment of a date in the step (yearly, end-of-year, monthly) or by index arithmetic (every-n, final, weather), the frequency-name table with its rejections, and the bijection between firing steps and action indices. The driver evaluates containment by date enumeration on the implementation's steps.",
-)
+import importlib.util as _ilu, os as _os
+_d = _os.path.join(_os.path.dirname(_os.path.abspath(__file__)), "props")
+for _f in sorted(_os.listdir(_d)):
+    if _f.startswith("C") and _f.endswith(".py"):
+        _spec = _ilu.spec_from_file_location("props_" + _f[:-3], _os.path.join(_d, _f))
+        _m = _ilu.module_from_spec(_spec); _spec.loader.exec_module(_m)
+        PROPS[_f[:-3]] = _m.PROP
+        META[_f[:-3]] = _m.META
+        for _e in getattr(_m, "ENGINES", []):
+            ENGINES[_e["name"]] = _e
